@@ -2254,6 +2254,21 @@ def sympy_form_overflows(p, ipt):
         return False
 
 
+_ATTR = {}
+
+
+def attributed(fn, p, ipt):
+    """memo of the sympy-based attributions per (program, point): the same point fails on many routes"""
+    k = (fn.__name__, p.get("id"), json_key(p["texts"]), ipt)
+    if k not in _ATTR:
+        _ATTR[k] = fn(p, ipt)
+    return _ATTR[k]
+
+
+def json_key(t):
+    return t if isinstance(t, str) else repr(t)
+
+
 def finding_key(p, route, msg, orig=None, ipt=None):
     """structural key of a monitor failure (matched against known_findings.json); `orig` = the component of the
     array whose value is wrong, `ipt` the point"""
@@ -2261,10 +2276,10 @@ def finding_key(p, route, msg, orig=None, ipt=None):
     key = {"kind": p["kind"], "route": base}
     if msg:
         key["error"] = msg.split(":")[0]
-    if not msg and simplify_flips_inequality(p, ipt):
+    if not msg and attributed(simplify_flips_inequality, p, ipt):
         key.update({"call_site": "ExpressionBase.__init__ (sympy.simplify)",
                     "symptom": "simplification changes the truth value of an inequality"})
-    elif not msg and p["kind"] == "scalar" and sympy_form_overflows(p, ipt):
+    elif not msg and p["kind"] == "scalar" and attributed(sympy_form_overflows, p, ipt):
         key.update({"call_site": "parse_expr_guarded / sympy.simplify (sympy's form of the formula)",
                     "symptom": "sympy's form of the formula overflows to NaN where the formula is finite"})
     if "of type int which has no callable" in msg or ("int too big" in msg.lower()) or "Int value is too large" in msg:
